@@ -114,3 +114,93 @@ def r_ellipsis_fill(prog: Program, col: Collector, refs: Refs, cat: Catalogue, r
               (f"with {bad[0]} entries before and {bad[1]} after the Ellipsis ({'no ' if not bad[2] else ''}Ellipsis present) and size {bad[3]} the index is filled with {bad[4]} "
                f"slice(None) entries, {bad[0] + max(0, bad[4]) + bad[1]} in total instead of {bad[3]}: the entries after the Ellipsis address the wrong dims") if bad else
               "the result is not left + fillers + right", f.loc(fills[0]))
+
+
+def r_raw_getitem_indexes_in_place(prog: Program, col: Collector, refs: Refs, cat: Catalogue, rule: str):
+    """The raw kernel of ops.getitem (what a compiled / traced program applies to arrays) must select along dimension `offset` and
+    leave every other dimension where it is - that is what the tensor rule of the interpreter does.  Read off the code: every
+    return is `lhs[index]` on the first operand itself (no swapaxes / transpose / moveaxis of it), and the index is the second
+    operand (offset 0) or a tuple whose entry number `offset` is the second operand, all earlier entries being slice(None) -
+    evaluated symbolically for offset = 0..4."""
+    col.rule(rule, "the raw getitem kernel indexes dimension `offset` of its first operand and keeps the order of the others", floor=1)
+    f = prog.funcs.get("funsor.ops.builtin::getitem")
+    if f is None:
+        raise AnalysisError("anchor funsor.ops.builtin.getitem not found")
+    lhs, rhs = f.positional[:2]
+    offp = f.positional[2] if len(f.positional) > 2 else "offset"
+
+    def tuple_shape(e, off):
+        """abstract value of a tuple expression: list of 'FULL' / 'RHS' / '?'"""
+        if isinstance(e, ast.Tuple):
+            out = []
+            for x in e.elts:
+                if isinstance(x, ast.Name) and x.id == rhs:
+                    out.append("RHS")
+                elif norm(x) == "slice(None)" or (isinstance(x, ast.Call) and isinstance(x.func, ast.Name) and x.func.id == "slice" and all(isinstance(a, ast.Constant) and a.value is None for a in x.args)):
+                    out.append("FULL")
+                else:
+                    out.append("?")
+            return out
+        if isinstance(e, ast.BinOp) and isinstance(e.op, ast.Add):
+            a, b = tuple_shape(e.left, off), tuple_shape(e.right, off)
+            return None if a is None or b is None else a + b
+        if isinstance(e, ast.BinOp) and isinstance(e.op, ast.Mult):
+            from .kernels import _eval_int
+            from .c04 import _NoEval
+            for t, k in ((e.left, e.right), (e.right, e.left)):
+                ts = tuple_shape(t, off)
+                if ts is not None:
+                    try:
+                        return ts * max(0, _eval_int(k, {offp: off}))
+                    except _NoEval:
+                        return None
+            return None
+        return None
+
+    rets = [r for r in walk_no_nested(f.node) if isinstance(r, ast.Return) and r.value is not None]
+    bad = None
+    n = 0
+    for off in range(5):
+        # which return is taken for this offset: evaluate the enclosing tests over {offset: off}
+        from .kernels import _eval_int
+        from .c04 import _NoEval
+        taken = None
+        for r in sorted(rets, key=lambda x: x.lineno):
+            live = True
+            for a in f.module.ancestors(r):
+                if isinstance(a, ast.If):
+                    try:
+                        tv = bool(_eval_int(a.test, {offp: off}))
+                    except _NoEval:
+                        tv = None
+                    inside_body = any(r is y for st in a.body for y in ast.walk(st))
+                    if tv is not None and tv != inside_body:
+                        live = False
+            # an earlier `if c: return` that is taken pre-empts the later ones
+            if live:
+                taken = r
+                break
+        if taken is None:
+            continue
+        n += 1
+        v = taken.value
+        if not (isinstance(v, ast.Subscript) and isinstance(v.value, ast.Name) and v.value.id == lhs):
+            rearranged = any(isinstance(x, ast.Attribute) and x.attr in ("swapaxes", "transpose", "moveaxis", "permute", "T", "rollaxis") for x in ast.walk(v))
+            if not rearranged:
+                col.unresolved(f"{f.fq}::offset {off}", f"`{norm(v)[:50]}` is not a subscript of `{lhs}`; its axis behaviour is not modelled", f.loc(taken))
+                continue
+            bad = bad or (off, f"returns `{norm(v)[:50]}`, which is not an index into `{lhs}` itself (the operand is re-arranged before it is indexed, so the remaining dims come out in another order)", taken)
+            continue
+        idx = v.slice
+        if isinstance(idx, ast.Name) and idx.id == rhs:
+            shape = ["RHS"]
+        else:
+            shape = tuple_shape(idx, off)
+        if shape is None:
+            col.unresolved(f"{f.fq}::offset {off}", f"index expression `{norm(idx)[:50]}` not evaluated", f.loc(taken))
+            continue
+        if not (len(shape) == off + 1 and shape[off] == "RHS" and all(s == "FULL" for s in shape[:off])):
+            bad = bad or (off, f"the index is {shape}: `{rhs}` is not entry number {off} after {off} full slices", taken)
+    col.check(bad is None, f"{f.fq}::index tuple", f"lhs[(slice(None),) * offset + (rhs,)] in effect, for offset 0..4 ({n} cases)",
+              f"for offset {bad[0]} the kernel {bad[1]}; the interpreter's tensor rule selects along dimension {bad[0]} in place, so a compiled program and the interpreted term disagree" if bad else "",
+              f.loc(bad[2]) if bad else f.loc())
